@@ -137,8 +137,10 @@ class World:
         self.g_commit = {}  # index -> (entry term, command, committing node's term, holders at commit time)
         # attribution only (not hashed)
         self.g_votes = {}  # (term, voter) -> set of candidates granted
+        self.g_stale = {}  # index -> had a leader been handed an older-term success answer before this commit
         self.viol = []
         self.overtook = False
+        self.stale_ok = False
         self.nt = "#NT0#"
         self.oc = "#OC0#"
         if self.p.get("start", True):
@@ -195,7 +197,7 @@ class World:
                 labs.append(("restart", nm))
             elif u["crashes"] < p.get("crashes", 0):
                 labs.append(("crash", nm))
-        return labs
+        return [_INTERN.setdefault(lab, lab) for lab in labs]
 
     def _take_msg(self, etype, fz):
         for i, rec in enumerate(self.msgs):
@@ -218,7 +220,11 @@ class World:
         kind = lab[0]
         if kind == "deliver":
             m = self._take_msg(lab[1], lab[2])
-            dst = self.nodes[m.context["metadata"]["destination"]]
+            md = m.context["metadata"]
+            dst = self.nodes[md["destination"]]
+            if (m.event_type == "RaftAppendEntriesResponse" and md.get("success") and dst.is_leader
+                    and md.get("term", 0) < dst.current_term and dst.name not in self.down):
+                self.stale_ok = True  # attribution only: a leader was handed a success answer of an older term
             # exactly what NetworkLink.handle_event builds after the delay
             fwd = Event(time=self.clock.now, event_type=m.event_type, target=dst, daemon=m.daemon,
                         context=m.context.copy())
@@ -306,6 +312,7 @@ class World:
                     e = self._entry(nd, i)
                     holders = sum(1 for x in self.names if self._entry(nodes[x], i) == e)
                     self.g_commit[i] = (e[0], e[1], nd.current_term, holders)
+                    self.g_stale[i] = self.stale_ok
         # clause 3: a committed entry is in the log of every later leader
         for nm in self.names:
             nd = nodes[nm]
@@ -314,6 +321,8 @@ class World:
             for i, (et, cmd, cterm, holders) in sorted(self.g_commit.items()):
                 if nd.current_term > cterm and self._entry(nd, i) != (et, cmd):
                     shape = "committed-without-quorum" if holders < quorum else "quorum-held-entry"
+                    if holders < quorum and self.g_stale.get(i):
+                        shape += "-after-stale-term-response"
                     have = self._entry(nd, i)
                     v.append((f"{COMP}/committed-entry-in-later-leader/{shape}",
                               f"entry (index {i}, term {et}, {cmd!r}) was committed in term {cterm} "
@@ -466,6 +475,9 @@ def run_script(w, steps):
         elif s[0] == "dropmsg":  # ('dropmsg', type, src, dst)
             lab = _find(w, "Raft" + s[1], s[2], s[3])
             labs = [("drop",) + lab[1:]]
+        elif s[0] == "keeponly":  # ('keeponly', (type, src, dst), ...): lose everything else in flight
+            keep = [_find(w, "Raft" + k[0], k[1], k[2])[1:] for k in s[1:]]
+            labs = [("drop",) + r[1] for r in sorted(w.msgs, key=lambda r: _sort_key(r[1])) if r[1] not in keep]
         elif s[0] == "drain":  # deliver everything in flight, canonical order, until quiescent
             labs = None
             while w.msgs:
@@ -513,6 +525,26 @@ WORLDS = {
                          ("msg", "RequestVote", "n2", "n1"), ("msg", "VoteResponse", "n1", "n2"), ("submit", "n2"),
                          ("dropmsg", "RequestVote", "n2", "n0"), ("dropmsg", "AppendEntries", "n2", "n1")],
                  timeouts=2, max_term=4, hbs=0, max_msgs=5),
+    # five nodes, a success response of an EARLIER term of the same leader is still in flight:
+    # n0 led term 1 with [c0,c1]; n1 stored both and its answer (term 1, match 2) is delayed; n2 won term 2
+    # (n3, n4), wrote c2 and replicated it to n0 (which dropped c0,c1); n0 won term 3 (n2, n3, n4), accepted c3
+    # and sent a heartbeat of which only the copy for n3 survives
+    "stale-resp5": dict(n=5, prefix=[
+        ("timeout", "n0"), ("msg", "RequestVote", "n0", "n1"), ("msg", "RequestVote", "n0", "n2"),
+        ("msg", "VoteResponse", "n1", "n0"), ("msg", "VoteResponse", "n2", "n0"), ("drop",),
+        ("submit", "n0"), ("submit", "n0"), ("hb", "n0"), ("msg", "AppendEntries", "n0", "n1"),
+        ("keeponly", ("AppendEntriesResponse", "n1", "n0")),
+        ("timeout", "n2"), ("msg", "RequestVote", "n2", "n3"), ("msg", "RequestVote", "n2", "n4"),
+        ("msg", "VoteResponse", "n3", "n2"), ("msg", "VoteResponse", "n4", "n2"),
+        ("keeponly", ("AppendEntriesResponse", "n1", "n0")),
+        ("submit", "n2"), ("hb", "n2"), ("msg", "AppendEntries", "n2", "n0"),
+        ("keeponly", ("AppendEntriesResponse", "n1", "n0")),
+        ("timeout", "n0"), ("msg", "RequestVote", "n0", "n2"), ("msg", "RequestVote", "n0", "n3"),
+        ("msg", "RequestVote", "n0", "n4"), ("msg", "VoteResponse", "n3", "n0"), ("msg", "VoteResponse", "n4", "n0"),
+        ("keeponly", ("AppendEntriesResponse", "n1", "n0")),
+        ("submit", "n0"), ("hb", "n0"),
+        ("keeponly", ("AppendEntriesResponse", "n1", "n0"), ("AppendEntries", "n0", "n3"))],
+        timeouts=1, max_term=4, hbs=0, max_msgs=6),
     # crash / restart of any node anywhere during replication and during a leader change
     "crash-repl": dict(prefix=ELECT_N0, submits=1, hbs=2, crashes=1, timeouts=1, max_term=2, max_msgs=5),
     "crash-change": dict(prefix=ELECT_N0 + [("submit", "n0")], timeouts=2, max_term=3, hbs=1, crashes=1, max_msgs=4),
@@ -554,15 +586,14 @@ class MakeWorld:
 
 _NT = re.compile(rb"#NT1#")
 _OC = re.compile(rb"#OC[0-9a-f]{10}#")
+_INTERN = {}
 
 
-def run_world(run, name, overrides, max_states, max_seconds, dname=None):
+def _bfs_job(job):
+    """One scenario world explored to exhaustion IN-PROCESS (no per-transition IPC); worlds run side
+    by side in the fork pool.  Returns plain data."""
+    _kind, dname, name, overrides, max_states, max_seconds = job
     mk = MakeWorld(name, overrides)
-    dname = dname or name
-    bounds = {k: v for k, v in mk.params.items() if k != "prefix"}
-    bounds["nodes"] = mk.params.get("n", 3)
-    bounds["start"] = "scripted prefix: " + repr(mk.params["prefix"]) if "prefix" in mk.params else "all followers, term 0"
-    d = run.driver("bfs-" + dname, bounds)
     stats = {"nt": 0, "oc": set()}
 
     def on_state(_key, blob):
@@ -572,27 +603,28 @@ def run_world(run, name, overrides, max_states, max_seconds, dname=None):
         if m:
             stats["oc"].add(m.group(0))
 
-    res = _bfs.bfs(mk, max_states=max_states, max_seconds=max_seconds, pool=pool(), on_state=on_state, chunk=48)
-    d.states = res.states
-    d.transitions = res.transitions
-    d.executions = res.states  # one shortest real trace per distinct state
-    d.nontrivial = stats["nt"]
-    d.outcomes = len(stats["oc"])
-    d.exhaustive = res.exhaustive
-    d.caps = list(res.caps)
-    d.wall_s = res.wall_s
-    d.extra = {"depth_completed": res.depth, "level_sizes": res.level_sizes, "terminal_states": res.terminal_states,
-               "prefix_labels": len(mk.prefix_labels)}
-    d.samples = [[_short(lab) for lab in tr] for tr in res.sample_traces[-2:]]
+    res = _bfs.bfs(mk, max_states=max_states, max_seconds=max_seconds, pool=None, on_state=on_state)
+    viols = []
     for fp, desc, trace in res.violations:
         # re-run from the replay data before reporting (same schedule, same verdict)
-        w, again = _bfs.replay(MakeWorld(name, overrides), trace, verbose=False)
+        _w, again = _bfs.replay(MakeWorld(name, overrides), trace, verbose=False)
         if not any(f == fp for f, _d in again):
             raise AssertionError(f"violation {fp} did not reproduce on replay of its own trace")
-        run.violation(fp, desc + f"  [world {dname}, {len(trace)} moves after the prefix]",
+        viols.append((fp, desc + f"  [world {dname}, {len(trace)} moves after the scripted start]",
                       {"driver": "bfs", "world": name, "overrides": overrides or {}, "labels": trace,
-                       "readable": [_short(lab) for lab in trace]})
-    return res
+                       "readable": [_short(lab) for lab in trace]}))
+    bounds = {k: v for k, v in mk.params.items() if k != "prefix"}
+    bounds["nodes"] = mk.params.get("n", 3)
+    bounds["start"] = ("scripted through the real handlers: " + " ; ".join(_short(x) for x in mk.prefix_labels)
+                       if mk.prefix_labels else "all followers, term 0, election timers armed")
+    return {"kind": "bfs", "dname": dname, "bounds": bounds, "states": res.states, "transitions": res.transitions,
+            "nt": stats["nt"], "oc": len(stats["oc"]), "exhaustive": res.exhaustive, "caps": list(res.caps),
+            "wall": res.wall_s, "depth": res.depth, "levels": res.level_sizes, "terminal": res.terminal_states,
+            "samples": [[_short(lab) for lab in tr] for tr in res.sample_traces[-2:]], "viol": viols}
+
+
+def _job(job):
+    return _bfs_job(job) if job[0] == "bfs" else _live_subtree(job[1:])
 
 
 def _short(lab):
@@ -635,6 +667,19 @@ def own_uniform(chooser, fracs):
         yield
     finally:
         _random.uniform = saved
+
+
+class TimedSM(RecSM):
+    """RecSM that also notes the simulated instant (ms) of every apply (for the observation digest)."""
+    node = None
+
+    def __init__(self):
+        super().__init__()
+        self.at = []
+
+    def apply(self, command):
+        self.at.append(self.node.now.nanoseconds // 1_000_000)
+        return super().apply(command)
 
 
 class LiveDriver(Entity):
@@ -705,11 +750,12 @@ def live_run(chooser, k, cfg=LIVE, trace=None):
     holder.chooser = chooser
     net = Network(name="net")
     names = ["n0", "n1", "n2"]
-    sms = {nm: RecSM() for nm in names}
+    sms = {nm: TimedSM() for nm in names}
     nodes = [RaftNode(name=nm, network=net, state_machine=sms[nm], election_timeout_min=cfg["tmin"],
                       election_timeout_max=cfg["tmax"], heartbeat_interval=cfg["hb"]) for nm in names]
     for nd in nodes:
         nd.set_peers(nodes)
+        sms[nd.name].node = nd
     for a, b in itertools.combinations(nodes, 2):
         net.add_bidirectional_link(a, b, NetworkLink(name=f"l_{a.name}_{b.name}",
                                                      latency=ChoiceLatency(list(cfg["menu"]), holder, "lat")))
@@ -755,6 +801,7 @@ def live_run(chooser, k, cfg=LIVE, trace=None):
                                  f"future of submit({cmd!r}) resolved with {val!r}; entry there: {e!r}"))
     obs = (drv.outcome, drv.leader.name if drv.leader else None, tuple(drv.cmds),
            tuple(sorted((nm, tuple(v)) for nm, v in (drv.final or {}).items())),
+           tuple((nm, tuple(sms[nm].at)) for nm in names),
            tuple(f.is_resolved and freeze(f.value) for f in drv.futs),
            tuple((n.name, n.state.name, n.current_term, n.log.last_index, n.log.commit_index) for n in nodes))
     return drv, viol, obs
@@ -764,7 +811,7 @@ def _live_subtree(job):
     """All executions whose FIRST deviation is ``prefix`` (prefix ends with a non-zero choice),
     with up to ``bound`` deviations in total."""
     k, prefix, shapes, bound = job
-    st = {"exec": 0, "trans": 0, "outcomes": set(), "viol": {}, "nontriv": 0, "kinds": {}, "sample": None}
+    st = {"kind": "live", "k": k, "exec": 0, "trans": 0, "outcomes": set(), "viol": {}, "nontriv": 0, "kinds": {}, "sample": None}
     stack = [(prefix, shapes, 1 if prefix else 0)]
     while stack:
         pre, shp, devs = stack.pop()
@@ -793,52 +840,48 @@ def _live_subtree(job):
     return st
 
 
-def run_live(run, k, bound, seed):
-    t0 = time.time()
-    d = run.driver(f"live-k{k}", dict(LIVE, nodes=3, commands=k, deviation_bound=bound,
-                                       note="choice 0 = smallest delay / shortest timeout / zero gap"))
+def live_jobs(k, bound):
+    """Default execution (run here) + one job per possible FIRST deviation (a partition of the space)."""
     ch0 = Chooser()
     drv, viol, obs = live_run(ch0, k)
     shapes = list(ch0.points)
-    jobs = [(k, list(ch0.choices[:i]) + [alt], shapes[: i + 1], bound)
+    jobs = [("live", k, list(ch0.choices[:i]) + [alt], shapes[: i + 1], bound)
             for i, (pn, _t) in enumerate(shapes) for alt in range(1, pn)] if bound >= 1 else []
-    results = [{"exec": 1, "trans": len(ch0.choices), "outcomes": {digest(obs)},
-                "viol": {fp: (desc, {"driver": "live", "k": k, "choices": []}) for fp, desc in viol},
-                "nontriv": 0, "kinds": {drv.outcome: 1}, "sample": None}]
-    results += pmap(_live_subtree, rotate(jobs, seed), chunksize=2)
-    outcomes, kinds = set(), {}
-    for st in results:
-        d.executions += st["exec"]
-        d.transitions += st["trans"]
-        d.nontrivial += st["nontriv"]
-        outcomes |= st["outcomes"]
-        for kk, vv in st["kinds"].items():
-            kinds[kk] = kinds.get(kk, 0) + vv
-        for fp, (desc, rep) in st["viol"].items():
-            run.violation(fp, desc, rep)
-        if st["sample"] and len(d.samples) < 2:
-            d.samples.append(st["sample"])
-    d.states = d.outcomes = len(outcomes)
-    d.extra = {"choice_points_default_run": len(shapes), "premise_outcomes": kinds,
-               "deviation_bound_completed": bound}
-    d.wall_s = time.time() - t0
+    first = {"kind": "live", "k": k, "exec": 1, "trans": len(ch0.choices), "outcomes": {digest(obs)},
+             "viol": {fp: (desc, {"driver": "live", "k": k, "choices": []}) for fp, desc in viol},
+             "nontriv": 0, "kinds": {drv.outcome: 1}, "sample": None, "points": len(shapes)}
+    return first, jobs
 
 
 # ---------------------------------------------------------------------------
 # tiers
 # ---------------------------------------------------------------------------
-# (driver name, world, overrides, max_states)
+# (driver name, world, overrides, max_states) — biggest first (they start first in the pool)
 QUICK_WORLDS = [
-    ("elect", "elect", dict(timeouts=2), 400_000),
-    ("repl", "repl", None, 400_000),
-    ("change-t1", "change", dict(timeouts=1, max_term=2, hbs=1), 400_000),
-    ("change-t2", "change", dict(timeouts=2, max_term=3, hbs=0, max_msgs=4), 400_000),
+    ("elect", "elect", dict(timeouts=3, max_msgs=6), 300_000),
+    ("change-t2", "change", dict(timeouts=2, max_term=3, hbs=0, max_msgs=4), 300_000),
+    ("fig8", "fig8", dict(max_msgs=4), 300_000),
+    ("change-t1", "change", dict(timeouts=1, max_term=2, hbs=1), 300_000),
+    ("behind", "behind", dict(hbs=0, max_msgs=4), 300_000),
+    ("crash", "crash-repl", dict(hbs=1, max_msgs=3), 300_000),
+    ("repl-drop", "repl-drop", dict(hbs=2, drops=1, max_msgs=3), 300_000),
+    ("repl", "repl", None, 300_000),
 ]
 THOROUGH_WORLDS = [
-    ("elect", "elect", None, 1_500_000),
-    ("repl", "repl", None, 1_500_000),
-    ("change-t1", "change", dict(timeouts=1, max_term=2, hbs=2), 1_500_000),
-    ("change-t2", "change", dict(timeouts=2, max_term=3, hbs=0, max_msgs=4), 1_500_000),
+    ("elect", "elect", None, 2_000_000),
+    ("elect-t3", "elect-t3", None, 2_000_000),
+    ("elect5", "elect5", None, 2_000_000),
+    ("change-t2-hb1", "change", dict(timeouts=2, max_term=3, hbs=1, max_msgs=4), 2_000_000),
+    ("change-t2", "change", dict(timeouts=2, max_term=3, hbs=0, max_msgs=6), 2_000_000),
+    ("change-t1", "change", dict(timeouts=1, max_term=2, hbs=2), 2_000_000),
+    ("change-half", "change-half", dict(max_msgs=4), 2_000_000),
+    ("fig8", "fig8", dict(hbs=1), 2_000_000),
+    ("behind", "behind", None, 2_000_000),
+    ("crash", "crash-repl", None, 2_000_000),
+    ("crash-change", "crash-change", None, 2_000_000),
+    ("repl-drop", "repl-drop", None, 2_000_000),
+    ("free", "free", None, 2_000_000),
+    ("repl", "repl", dict(submits=3, hbs=3), 2_000_000),
 ]
 
 
@@ -854,7 +897,7 @@ def main(tier, seed, only=None):
                     "live-* drivers: executions = complete runs of the real Simulation+Network, transitions = "
                     "owned choice points answered, non-trivial = runs with >= 1 deviation from the default "
                     "delays/timeouts in which the premise (single established leader) held, states = distinct "
-                    "end-to-end observations"),
+                    "end-to-end observations (premise outcome, leader, per-node apply instants, futures)"),
               assumptions=["E1 abstracts time: any live timer may fire and any in-flight message may be delivered "
                            "at any moment (safety must not depend on timing); the clock object stays at 0",
                            "a partition is modelled by losing the messages it would block; a crash is the "
@@ -862,18 +905,61 @@ def main(tier, seed, only=None):
                            "calls start() again",
                            "messages are not duplicated (the statement names delay, reordering, loss)",
                            "cluster size 3 (5 only in the thorough election world)",
-                           "E2 horizon: 4 heartbeat intervals after the last submit"])
+                           "E2 horizon: 4 heartbeat intervals after the last submit; premise checked at t_est: "
+                           "exactly one leader, all other nodes followers of it in its term"])
+    t0 = time.time()
     worlds = QUICK_WORLDS if tier == "quick" else THOROUGH_WORLDS
-    budget_s = 45 if tier == "quick" else 170
-    for dname, wname, ov, cap in rotate(worlds, seed):
+    budget_s = 600 if tier == "quick" else 3000  # safety net only; the bounds are the state constraints
+    jobs = []
+    for dname, wname, ov, cap in worlds:
         if only and "bfs-" + dname not in only and dname not in only:
             continue
-        run_world(run, wname, ov, cap, budget_s, dname=dname)
+        jobs.append(("bfs", dname, wname, ov, cap, budget_s))
     lives = [(2, 2)] if tier == "quick" else [(1, 2), (2, 2), (3, 2)]
+    results, ljobs = [], []
     for k, bound in lives:
         if only and f"live-k{k}" not in only:
             continue
-        run_live(run, k, bound, seed)
+        first, lj = live_jobs(k, bound)
+        first["bound"] = bound
+        results.append(first)
+        ljobs += lj
+    results += pmap(_job, jobs + rotate(ljobs, seed), ordered=False)
+    live_out = {}
+    for st in results:
+        if st["kind"] == "bfs":
+            d = run.driver("bfs-" + st["dname"], st["bounds"])
+            d.states, d.transitions, d.executions = st["states"], st["transitions"], st["states"]
+            d.nontrivial, d.outcomes = st["nt"], st["oc"]
+            d.exhaustive, d.caps, d.wall_s = st["exhaustive"], st["caps"], st["wall"]
+            d.extra = {"depth_completed": st["depth"], "level_sizes": st["levels"], "terminal_states": st["terminal"]}
+            d.samples = st["samples"]
+            for fp, desc, rep in st["viol"]:
+                run.violation(fp, desc, rep)
+        else:
+            k = st["k"]
+            d = run.driver(f"live-k{k}", dict(LIVE, nodes=3, commands=k,
+                                               note="choice 0 = smallest delay / rotating default timeout / zero gap"))
+            d.executions += st["exec"]
+            d.transitions += st["trans"]
+            d.nontrivial += st["nontriv"]
+            lo = live_out.setdefault(k, {"outcomes": set(), "kinds": {}})
+            lo["outcomes"] |= st["outcomes"]
+            for kk, vv in st["kinds"].items():
+                lo["kinds"][kk] = lo["kinds"].get(kk, 0) + vv
+            if "points" in st:
+                d.bounds["deviation_bound"] = st["bound"]
+                d.extra["choice_points_default_run"] = st["points"]
+                d.extra["deviation_bound_completed"] = st["bound"]
+            for fp, (desc, rep) in st["viol"].items():
+                run.violation(fp, desc, rep)
+            if st["sample"] and len(d.samples) < 2:
+                d.samples.append(st["sample"])
+    for k, lo in live_out.items():
+        d = run.driver(f"live-k{k}")
+        d.states = d.outcomes = len(lo["outcomes"])
+        d.extra["premise_outcomes"] = lo["kinds"]
+        d.wall_s = time.time() - t0
     return run.finish()
 
 
